@@ -296,7 +296,7 @@ class P:
         elif t == 'opaque':
             ty = Ty('struct', fields=[], name='opaque')
         elif t[0] == '%':
-            nm = t[1:]
+            nm = t[1:].strip('"')
             if nm not in self.m.named:
                 # forward reference: placeholder resolved lazily
                 self.m.named[nm] = Ty('struct', fields=[], name=nm)
